@@ -297,6 +297,13 @@ class ExprMixin:
             return const(v)
         if self.functable(("functable", owner.qual, name)) is not None:
             return ("functable", owner.qual, name)
+        if isinstance(expr, ast.Name) and expr.id not in owner.methods:
+            # a class attribute that names a class or a function of the repository (stateClass = ConnectedState): that class / function
+            r = self.prog.resolve(owner.module, expr.id)
+            if r and r[0] == "class":
+                return ("cls", r[1])
+            if r and r[0] == "func" and not r[1].is_generator:
+                return ("func", r[1])
         if _is_object_call(expr):
             return ("sentinel", owner.qual + "." + name)
         if isinstance(expr, (ast.Tuple, ast.List)) and expr.elts:
@@ -1093,6 +1100,12 @@ class ExprMixin:
         if k == "cmp":
             if t in st.facts:
                 return st.facts[t]
+            if t[1] in ("is", "is not") and all(isinstance(x, tuple) and len(x) == 3 and x[0] == "reg" for x in t[2:4]):
+                # two per-address containers compared by identity: the same one, or two of the distinct containers buildProtocol stores
+                # (that they are distinct objects is C19's I-FRESH / I-SHARED)
+                same = t[2] == t[3]
+                if same or t[2][1] != t[3][1]:
+                    return same if t[1] == "is" else (not same)
             neg = ("cmp", NEG.get(t[1], "?"), t[2], t[3])
             if neg in st.facts:
                 return not st.facts[neg]
